@@ -23,7 +23,8 @@ import (
 )
 
 type Opts struct {
-	NoB bool `json:"no_b"`
+	NoB  bool   `json:"no_b"`
+	Seed string `json:"seed"` // world seed name (changes wallet ids)
 	// Tasks: the base histories contain API operations and background steps (import of C,
 	// removal of B, NewAddress); the oracle then also covers their completion.
 	Tasks bool `json:"tasks"`
@@ -125,6 +126,8 @@ func (m *Model) Run(hist []string) *proto.Result {
 			p := strings.Split(e[1:], ":")
 			mode = p[0]
 			switch mode {
+			case "restart":
+				// orderly stop + start after the history (no planned crash)
 			case "crash":
 				plan.CrashCommit, _ = strconv.Atoi(p[1])
 			case "fail":
@@ -150,7 +153,7 @@ func (m *Model) Run(hist []string) *proto.Result {
 	dir := filepath.Join(env.Scratch(), fmt.Sprintf("c06-%d", m.seq))
 	defer os.RemoveAll(dir)
 	var seam *dbseam.DB
-	w, err := world.New(dir, world.Options{NoB: m.O.NoB && !m.O.Tasks, Wrap: func(u mwdb.DB) mwdb.DB {
+	w, err := world.New(dir, world.Options{NoB: m.O.NoB && !m.O.Tasks, SeedName: m.O.Seed, Wrap: func(u mwdb.DB) mwdb.DB {
 		ns := dbseam.Wrap(u, dbseam.NoPlan)
 		if seam != nil {
 			// a restart inside the history re-opens the database: plan and counters carry over
@@ -261,6 +264,24 @@ func (m *Model) Run(hist []string) *proto.Result {
 		mode = ""
 	}
 	switch mode {
+	case "restart":
+		for len(w.N.Queue) > 0 {
+			w.N.Pop() // nobody listened
+		}
+		note, err := Recover(w, func() int { return seam.Committed })
+		if err != nil {
+			res.Viol = append(res.Viol, err.Error())
+			res.Outcome = "recover-failed"
+			return res
+		}
+		if note != "" {
+			res.Info["inconclusive"] = 1
+			res.Outcome = "inconclusive"
+			return res
+		}
+		if m.O.Tasks {
+			res.Viol = append(res.Viol, m.adopt(w)...)
+		}
 	case "crash":
 		for len(w.N.Queue) > 0 {
 			w.N.Pop()
